@@ -299,6 +299,11 @@ def run_property(pid, tier, seed, replay=None):
         hruns = spec.get("hunt_runs", [(p, "both") for p in profiles] if tier == "thorough" else [(profiles[0], "both")])
         phases = list(phases) + [{"hunt": pid, "runs": hruns,
                                   "validate": spec.get("hunt_validate", [(i, None) for i in range(len(hruns))])}]
+        if tier == "quick" and "fast" not in profiles and "hunt_runs" not in spec and EXE[0] == "vdrive":
+            # ... and once more on the build without debug assertions and overflow checks (screened and executed there):
+            # behaviour that differs between the build profiles can hit any property
+            build(["fast"], EXE[0])
+            phases.append({"hunt": pid, "hunt_profile": "fast", "runs": [("fast", "both")], "validate": [(0, None)]})
     hunt_stats = []
     if replay and '"call"' in open(replay).readline():
         mm = os.path.join(outdir, "mismatch.ndjson")
@@ -320,7 +325,7 @@ def run_property(pid, tier, seed, replay=None):
             script = os.path.join(outdir, "script_%d.ndjson" % pi)
             if "hunt" in ph:
                 budget = spec.get("hunt_ms", (4000, 90000))[1 if tier == "thorough" else 0]
-                g = vdrive(spec.get("hunt_profile", profiles[0]), ["hunt", ph["hunt"], str(seed), str(budget), script])
+                g = vdrive(ph.get("hunt_profile", spec.get("hunt_profile", profiles[0])), ["hunt", ph["hunt"], str(seed + (1 if "hunt_profile" in ph else 0)), str(budget), script])
                 log("[hunt] %s: %s" % (ph["hunt"], g))
                 hunt_stats.append(g)
             else:
